@@ -3,7 +3,7 @@
    every run (Gen/Params.v: builtin_*_py, away_from_zero_round_py). *)
 From Coq Require Import String.
 From Coq Require Import List Ascii Bool ZArith QArith Qround Qabs.
-Require Import Model.Text Model.Num Model.PyNum Gen.Params Model.Number Spec.NumSpec Proofs.NumProofs.
+Require Import Model.Text Model.Num Model.PyNum Gen.PNumeric Model.Number Spec.NumSpec Proofs.NumProofs.
 Import ListNotations.
 Local Open Scope Q_scope.
 
